@@ -143,7 +143,6 @@
 /* VERIF-UNIT
 {
  "name": "ht_dirhash_md4",
- "backend": "cvc5",
  "props": ["C10"],
  "level": "U/k",
  "tier": "wip",
@@ -162,7 +161,6 @@
 /* VERIF-UNIT
 {
  "name": "ht_dirhash_tea",
- "backend": "cvc5",
  "props": ["C10"],
  "level": "U/k",
  "tier": "wip",
